@@ -116,6 +116,8 @@ def frag_leaf(rng, doc, cont, kind=None, arg_kind=None):
     sig = M.SIGS[M.ALIASES.get(leaf["fn"], leaf["fn"])]
     if pre == "dtype" or leaf["fn"] in ("is_instance", "keys_is_instance") or sig[0] == "none":
         return leaf, "type" if pre == "dtype" or sig[0] != "none" else "none"
+    if ak == "path" and leaf["fn"] in ("in_range", "not_in_range"):
+        ak = "as-is"  # range bounds taken from the document could be huge (cost, see gen.gen_args)
     if ak == "path" and leaf.get("args"):
         i = rng.randrange(len(leaf["args"]))
         r = rng.random()
